@@ -1,6 +1,9 @@
 package curl
 
 import (
+	"time"
+	"sync"
+	"strings"
 	"errors"
 	"crypto/sha256"
 	"math/rand"
@@ -242,6 +245,70 @@ func runSponge(op string, in M) M {
 		p := vCatch(func() { c = NewCurlP81() })
 		curls[vIntOf(in["id"])] = c
 		return M{"panic": p, "fresh": c != nil && isFresh(c)}
+	case "curl.par":
+		// distinct instances used from distinct goroutines at the same time: each must behave as if it were alone
+		seed := int64(vIntOf(in["seed"]))
+		history := func(k int64) string {
+			rr := rand.New(rand.NewSource(seed + k))
+			c := NewCurlP81()
+			bs := 1 + rr.Intn(64)
+			var sb strings.Builder
+			for round := 0; round < 3; round++ {
+				src := make([]trinary.Trits, bs)
+				for j := range src {
+					src[j] = make(trinary.Trits, 243)
+					for i := range src[j] {
+						src[j][i] = int8(rr.Intn(3) - 1)
+					}
+				}
+				if err := c.Absorb(src, 243); err != nil {
+					return "error " + err.Error()
+				}
+			}
+			d := c.Clone()
+			for _, x := range []*Curl{c, d} {
+				dst := make([]trinary.Trits, bs)
+				if err := x.Squeeze(dst, 486); err != nil {
+					return "error " + err.Error()
+				}
+				for j := range dst {
+					for _, t := range dst[j] {
+						sb.WriteByte(byte('1' + t))
+					}
+				}
+			}
+			return sb.String()
+		}
+		msg := ""
+		p := vCatch(func() {
+			const K = 8
+			want := make([]string, K)
+			for k := range want {
+				want[k] = history(int64(k))
+			}
+			deadline := time.Now().Add(time.Duration(vEnvInt("VERIF_PAR_MS", 1200)) * time.Millisecond)
+			var wg sync.WaitGroup
+			var mu sync.Mutex
+			for g := 0; g < K; g++ {
+				wg.Add(1)
+				go func(g int) {
+					defer wg.Done()
+					for rep := 0; rep < 4 || time.Now().Before(deadline); rep++ {
+						if got := history(int64(g)); got != want[g] {
+							mu.Lock()
+							msg = "verif: an instance used concurrently with other instances gave different output than when used alone"
+							mu.Unlock()
+							return
+						}
+					}
+				}(g)
+			}
+			wg.Wait()
+		})
+		if p == "" {
+			p = msg
+		}
+		return M{"panic": p}
 	case "curl.reset":
 		c := curls[vIntOf(in["id"])]
 		p := vCatch(func() { c.Reset() })
@@ -298,6 +365,14 @@ func runSponge(op string, in M) M {
 		bad := in["bad"].(string)
 		count := nb * 243
 		dst := make([]trinary.Trits, nl)
+		if vIntOf(in["id"])%2 == 1 && nl > 1 {
+			// the caller hands in result slots it carved out of ONE buffer (empty, capacity reaching to the buffer's end):
+			// the lanes' outputs must not run into each other
+			shared := make(trinary.Trits, nl*243)
+			for j := range dst {
+				dst[j] = shared[j*243 : j*243]
+			}
+		}
 		switch bad {
 		case "batch0":
 			dst = nil
@@ -376,6 +451,9 @@ func genTransform(do func(string, M)) {
 
 func genSponge(do func(string, M)) {
 	r := vRand(6)
+	if vEnvInt("VERIF_PAR_MS", 1200) > 0 {
+		defer func() { do("curl.pool", M{"seed": 1, "n": 1}); do("curl.par", M{"seed": r.Intn(1 << 30)}) }()
+	}
 	ntr := vEnvInt("VERIF_N", 12)
 	audits := vEnvInt("VERIF_AUDIT", 6)
 	nkeys := 12
@@ -416,6 +494,12 @@ func genSponge(do func(string, M)) {
 			do("curl.squeeze", M{"id": 8, "nlanes": bs, "nblocks": 2, "bad": "", "audit": []int{}})
 			do("curl.squeeze", M{"id": 9, "nlanes": bs, "nblocks": 1, "bad": "", "audit": []int{}})
 		}
+		// a fresh instance that is squeezed before anything was absorbed, reset, and used again
+		do("curl.new", M{"id": 7})
+		do("curl.squeeze", M{"id": 7, "nlanes": 2, "nblocks": 1, "bad": "", "audit": []int{}})
+		do("curl.reset", M{"id": 7})
+		do("curl.absorb", M{"id": 7, "lanes": [][]int{{1 + r.Intn(nkeys)}, {1 + r.Intn(nkeys)}}, "nblocks": 1, "bad": ""})
+		do("curl.squeeze", M{"id": 7, "nlanes": 2, "nblocks": 2, "bad": "", "audit": []int{}})
 		do("curl.new", M{"id": 1})
 		live := []int{1}
 		next := 2
